@@ -173,6 +173,8 @@ package kcache
   ghost V1 : (Array Key Entry) := {val(c.items)}
   ghost S1 : (Array Key Bool) := {dom(c.items)}
   at append(events) assert [event-well-formed] (and (not (= $elem vnil)) (not (= (evt-res $elem) vnil)) (evWF mirrorD mirrorV $elem))
+  ghost ecount : (Array Key Int) := ((as const (Array Key Int)) 0)
+  at append(events) set ecount := (store ecount (keyOf (evt-res $elem)) (+ 1 (select ecount (keyOf (evt-res $elem)))))
   at append(events) set mirrorV := (evApplyV mirrorV $elem)
   at append(events) set mirrorD := (evApplyD mirrorD $elem)
   at range set D1 := {dom(c.items)}
@@ -200,12 +202,27 @@ package kcache
                  (= (select {dom(c.items)} k) (stepInItems (select (old {dom(c.items)}) k) (select (old {val(c.items)}) k) {c.filter} (select (sarr {list}) j)))
                  (=> (select {dom(c.items)} k)
                      (= (select {val(c.items)} k) (stepVal (select (old {dom(c.items)}) k) (select (old {val(c.items)}) k) {c.filter} (select (sarr {list}) j))))))))))
+  loop 1 inv [at-most-one-event-per-key-listed-once] (forall ((k Key)) (and (>= (select ecount k) 0)
+        (=> (uniq {list} k) (and (<= (select ecount k) 1)
+             (=> (= (select ecount k) 1) (select {dom(set)} k))
+             (=> (= (select ecount k) 0) (and (= (select {dom(c.items)} k) (select (old {dom(c.items)}) k))
+                                              (=> (select {dom(c.items)} k) (= (select {val(c.items)} k) (select (old {val(c.items)}) k)))))
+             (=> (= (select ecount k) 1) (or (not (select (old {dom(c.items)}) k))
+                                              (not (= (select {val(c.items)} k) (select (old {val(c.items)}) k)))))))))
   loop 1 inv [mirror] (and (= mirrorD {dom(c.items)}) (forall ((k Key)) (=> (select {dom(c.items)} k) (= (select mirrorV k) (select {val(c.items)} k)))))
 
   loop 2 inv [visited-sub] (forall ((k Key)) (=> (select $visited k) (select D1 k)))
   loop 2 inv [dom] (forall ((k Key)) (= (select {dom(c.items)} k) (and (select D1 k) (or (not (select $visited k)) (select S1 k)))))
   loop 2 inv [val] (forall ((k Key)) (=> (select {dom(c.items)} k) (= (select {val(c.items)} k) (select V1 k))))
   loop 2 inv [set-frame] (= {dom(set)} S1)
+  loop 2 inv [at-most-one-event-per-key-listed-once] (forall ((k Key)) (and (>= (select ecount k) 0)
+        (=> (uniq {list} k) (and (<= (select ecount k) 1)
+             (=> (and (= (select ecount k) 1) (select D1 k) (not (select {dom(c.items)} k))) (not (select S1 k)))
+             (=> (and (= (select ecount k) 1) (select {dom(c.items)} k)) (select S1 k))
+             (=> (= (select ecount k) 0) (and (= (select {dom(c.items)} k) (select (old {dom(c.items)}) k))
+                                              (=> (select {dom(c.items)} k) (= (select {val(c.items)} k) (select (old {val(c.items)}) k)))))
+             (=> (= (select ecount k) 1) (or (not (= (select {dom(c.items)} k) (select (old {dom(c.items)}) k)))
+                                              (and (select {dom(c.items)} k) (not (= (select {val(c.items)} k) (select (old {val(c.items)}) k))))))))))
   loop 2 inv [mirror] (and (= mirrorD {dom(c.items)}) (forall ((k Key)) (=> (select {dom(c.items)} k) (= (select mirrorV k) (select {val(c.items)} k)))))
 
   ensures [wf] (WFitems {dom(c.items)} {val(c.items)})
@@ -219,6 +236,11 @@ package kcache
                  (=> (select {dom(c.items)} k)
                      (= (select {val(c.items)} k) (stepVal (select (old {dom(c.items)}) k) (select (old {val(c.items)}) k) {c.filter} (select (sarr {list}) j))))))))))
   exit [events-replay-to-new-content] (and (= mirrorD {dom(c.items)}) (forall ((k Key)) (=> (select {dom(c.items)} k) (= (select mirrorV k) (select {val(c.items)} k)))))
+  exit [exactly-one-event-for-each-changed-key-none-for-unchanged-keys] (forall ((k Key)) (=> (uniq {list} k)
+        (and (<= 0 (select ecount k)) (<= (select ecount k) 1)
+             (= (= (select ecount k) 0)
+                (and (= (select {dom(c.items)} k) (select (old {dom(c.items)}) k))
+                     (=> (select {dom(c.items)} k) (= (select {val(c.items)} k) (select (old {val(c.items)}) k))))))))
   exit [returns-events] (= result {events})
 @*/
 
